@@ -102,7 +102,8 @@ def coq_make(targets, timeout=1500, clean=False):
             os.remove(f)
     t0 = time.time()
     try:
-        rc, out = sh(["timeout", str(timeout), "make", "-j%d" % NPROC, "-k"] + targets, cwd=COQ, timeout=timeout + 30)
+        # a memory limit per coqc as well: a diverging vm_compute can take tens of GB before the time limit fires
+        rc, out = sh(["bash", "-c", "ulimit -v 16000000; exec timeout %d make -j%d -k %s" % (timeout, NPROC, " ".join(targets))], cwd=COQ, timeout=timeout + 30)
     except subprocess.TimeoutExpired:
         rc, out = 124, "make timed out"
     return rc == 0, out, time.time() - t0
